@@ -263,7 +263,9 @@ Section Run.
     let obs_sat :=
       match pr with
       | Err _ => []
-      | Ok po => []
+      | Ok po =>
+        let s2 := po_state po in
+        [ [8; if sat_state (p_aL s2) (p_aR s2) (p_aO s2) (p_v s2) (p_cons s2) then 1 else 0]%Z ]
       end in
     obs_p1 ++ obs_p2 ++ obs_v ++ obs_sat.
 End Run.
